@@ -249,11 +249,11 @@ def run(tier, selftest):
                           {"kind": "hostile", "case": c})
     # (d) random bytes
     nf = 300000 if thorough else 5000
-    rc, flines, err = vlib.run_harness(binp, ["decode-fuzz", "--seed", vlib.seed() + 3, "--n", nf, "--dir", os.path.join(vlib.scratch(), "fuzzdir")], timeout=3000)
-    if rc != 0 or not flines:
-        vlib.tool_error(f"decode-fuzz failed: {err[-300:]}")
-    for m in flines[:-1]:
+    flines, fhangs = vlib.run_fuzz_watched(binp, vlib.seed() + 3, nf, os.path.join(vlib.scratch(), "fuzzdir"))
+    for m in flines:
         rep.violation("load:panic:fuzz", m["mismatch"], {"kind": "bytes", "case": m["case"]})
+    for i, data in fhangs:
+        rep.violation("load:hang:fuzz", f"load() of random file {i} did not return (no progress for 20 s)", {"kind": "bytes", "case": {"fam": "fuzz", "i": i, "bytes": data}})
     cov = {
         "states": res.distinct,
         "transitions": res.generated,
